@@ -159,6 +159,55 @@ def run(seed, n, model_exe):
                         "model": want, "impl": got})
     return {"term_cases": len(metas), "term_outcomes": hist}, dis
 
+def norm_stmt(out):
+    """`ok (<terms>) (<futures>) <maxshift>` with the futures sorted"""
+    if not out.startswith("ok "):
+        return out
+    p = tl.parse_sexp("(" + out[3:] + ")")
+    terms, futs, ms = p[0], p[1], p[2]
+    futs = sorted(futs, key=lambda f: (str(f[0]), int(f[1]), f[2] == "true", int(f[3])))
+    return "ok {} {} {}".format(tl.sexp(tuple(terms)), tl.sexp(tuple(tuple(f) for f in futs)), ms)
+
+def run_statements(seed, n, model_exe):
+    """a statement as the sequence of its atom occurrences: one real `TermTransformer` with one set of future predicates and one
+    `max_shift` cell visits the atoms in order, each with the flags of its position — against the model `addTimeStmt`
+    (terms in order, bookkeeping at the end, the first rejection)"""
+    import telingo.transformers.term as tt, copy
+    r = random.Random(seed)
+    FLAGS = ((True, False, False), (False, False, False), (False, True, False), (False, False, True), (False, True, True), (True, False, True))
+    lines, metas, impl = [], [], []
+    for _ in range(n):
+        # mostly positions that accept everything (constraint bodies, heads with replaced future atoms): naive flags reject 85 %
+        pick = lambda: FLAGS[1] if r.random() < 0.5 else (FLAGS[0] if r.random() < 0.6 else r.choice(FLAGS))
+        occs = [(pick(), to_ast(gen_term(r))) for _ in range(r.randint(1, 5))]
+        lines.append(tl.sexp(("addtimestmt",) + tuple((int(f[0]), int(f[1]), int(f[2]), ast_to_sexp(a)) for f, a in occs)))
+        futures, ms = set(), [0]
+        tr = tt.TermTransformer(futures)
+        outs = []
+        try:
+            for (rf, ff, fp), a in occs:
+                ar = arities(a)
+                outs.append(result_sexp(tr.visit(copy.deepcopy(a), rf, ff, fp, ms), ar))
+            fs = sorted(futures)
+            got = "ok ({}) ({}) {}".format(" ".join(outs), " ".join("({} {} {} {})".format(tl.sexp(tl.QStr(nm)), a_, "true" if p_ else "false", s_)
+                                                                     for nm, a_, p_, s_ in fs), ms[0])
+        except BaseException as e:  # noqa
+            if isinstance(e, KeyboardInterrupt):
+                raise
+            got = "ERR " + tl.classify_exc(e)
+        impl.append(got)
+        metas.append(occs)
+    outs = model_exe.batch(lines)
+    dis, hist = [], {}
+    for occs, mo, got, line in zip(metas, outs, impl, lines):
+        k = "ok" if got.startswith("ok") else got
+        hist[k] = hist.get(k, 0) + 1
+        a = norm_stmt(" ".join(mo.split()))
+        b = norm_stmt(" ".join(got.split()))
+        if a != b:
+            dis.append({"layer": "L1-statement", "text": "atom occurrences of one statement: " + line, "model": a[:400], "impl": b[:400]})
+    return {"statements": len(metas), "statement_outcomes": hist}, dis
+
 if __name__ == "__main__":
     import sys
     exe = tl.LeanExe("telmodel")
